@@ -112,7 +112,22 @@ def step_compare(run, c, obs_list, key, idmap=None, tol_scale=1.0, warmup=False,
             if v['k'] == 'SE2' and abs(d[2]) > 2.5:
                 run.skip('exact step has an angular increment near +-pi')
                 return None
-    if warmup:
+    if warmup and run.notes.get('warmup_histories', 0) % 3 == 2:
+        # History dimension: the edge objects were used before in ANOTHER graph built from other vertex objects with the same ids but other
+        # poses; the graph under test is then constructed from the same edge objects and the case's vertices.
+        from graphslam.graph import Graph
+        from graphslam.vertex import Vertex
+        try:
+            other = [Vertex(v.id, v.pose + np.full(v.pose.COMPACT_DIMENSIONALITY, 0.125), fixed=v.fixed) for v in g._vertices]
+            for e in g._edges:
+                e.vertices = None               # freshly created edges (never linked) ...
+            Graph(g._edges, other)              # ... used in a first graph over other vertex objects ...
+        except Exception:  # noqa
+            pass
+        g = Graph(g._edges, g._vertices)        # ... and then in the graph under test
+        run.notes['warmup_histories'] = run.notes.get('warmup_histories', 0) + 1
+        run.notes['edge_reuse_histories'] = run.notes.get('edge_reuse_histories', 0) + 1
+    elif warmup:
         # History dimension: the same Graph object has already been optimised once with a SMALLER fixed set; afterwards the user
         # restores the poses and marks more vertices fixed.  The step must depend on the current state only (no stale linear system).
         want = [bool(v.fixed) for v in listed]
